@@ -357,6 +357,36 @@ theorem labelmapRead_stacked (st : Stored) (rq : Req) (d : DType) (wf : WfLabel 
 
 /-! ### the entry points -/
 
+theorem frameAdmitted_iff (k : Nat) (a : Bool) (m : Nat) :
+    (match frameAdmitted (k : Int) a (m : Int) with | .ok _ => true | .error _ => false) =
+      (decide (k ≠ 0) && (a || decide (k ≤ m))) := by
+  unfold frameAdmitted
+  cases a <;> simp <;> grind
+
+/-- the translated per-number checks (T8f) over the whole request, in closed form -/
+theorem framesAdmitted_eq (st : Stored) (a : Bool) (keys : List Nat) :
+    framesAdmitted st a keys =
+      (!(keys.any (· == 0)) && (a || !(keys.any fun k => decide (k > listMax (st.frames.map (·.key)))))) := by
+  unfold framesAdmitted
+  simp only [frameAdmitted_iff]
+  induction keys with
+  | nil => simp
+  | cons k t ih =>
+    simp only [List.all_cons, ih, List.any_cons]
+    cases a <;> simp <;> grind
+
+/-- what an entry point refuses: frame number 0, or an unknown stack value without the assertion -/
+theorem entryRefuses_eq (st : Stored) (mode : Mode) (a : Bool) (keys : List Nat) :
+    entryRefuses st mode a keys = (zeroFrameRequested mode keys || (!a && missingRefused st mode keys)) := by
+  unfold entryRefuses zeroFrameRequested missingRefused
+  cases mode with
+  | known ks => simp
+  | all => simp
+  | maxFrame =>
+    simp only [framesAdmitted_eq]
+    cases a <;> cases (keys.any (· == 0)) <;>
+      cases (keys.any fun k => decide (k > listMax (st.frames.map (·.key)))) <;> simp
+
 theorem read_eq_readCore (st : Stored) (mode : Mode) (a : Bool) (rq : Req)
     (h1 : rq.segs ≠ []) (h2 : rq.keys ≠ [])
     (h3 : ∀ k ∈ rq.keys, k ≠ 0) (hu : framesUnique st = true)
@@ -371,7 +401,7 @@ theorem read_eq_readCore (st : Stored) (mode : Mode) (a : Bool) (rq : Req)
     intro k hk; exact h3 k hk
   have e4 : (!a && missingRefused st mode rq.keys) = false := by
     rcases hm with rfl | h <;> simp_all
-  simp only [e1, e2, e3, hu, e4, Bool.false_eq_true, ↓reduceIte, Bool.not_true]
+  simp only [e1, e2, hu, entryRefuses_eq, e3, e4, Bool.false_eq_true, ↓reduceIte, Bool.not_true, Bool.or_self]
 
 theorem read_missing_refused (st : Stored) (mode : Mode) (rq : Req)
     (hm : missingRefused st mode rq.keys = true) :
@@ -381,11 +411,9 @@ theorem read_missing_refused (st : Stored) (mode : Mode) (rq : Req)
   · exact ⟨.value, by simp [e1]⟩
   by_cases e2 : rq.keys.isEmpty = true
   · exact ⟨.value, by simp [e1, e2]⟩
-  by_cases e3 : zeroFrameRequested mode rq.keys = true
-  · exact ⟨.value, by simp [e1, e2, e3]⟩
   by_cases e4 : framesUnique st = true
-  · exact ⟨.key, by simp [e1, e2, e3, e4, hm]⟩
-  · exact ⟨.runtime, by simp [e1, e2, e3, e4]⟩
+  · exact ⟨.key, by simp [e1, e2, e4, entryRefuses_eq, hm]⟩
+  · exact ⟨.runtime, by simp [e1, e2, e4]⟩
 
 /-! ### reading the output values -/
 
